@@ -128,7 +128,7 @@ class _RaiseLoop(LoopContract):
         H = g["H"][kind]
         g["loop_entry"] = {f: H[f] for f in ("count", "seen_value", "payload_new_value", "payload_old_value", "element_ok", "tasks")}
         g["loop_entry_value"] = g["E"].fields["_value"]
-        ev = ctx.env.vars.get("event")
+        ev = ctx.role("the event being raised (2nd parameter)", lambda n: n.args.args[1].arg, "event")
         g["loop_event"] = ev
         pd = ev.fields.get("prevent_default", False) if isinstance(ev, IObject) else False
         g["loop_entry_pd"] = smt.truthy(ctx.interp.to_term(pd)) if isinstance(pd, Sym) else z3.BoolVal(bool(pd))
